@@ -755,6 +755,37 @@ namespace {
         }
     }
 
+    void shape_let_error_keeps_ref(Rng& r)
+    {
+        // the sender returned by the callable keeps the reference to the stored error and looks at it when it
+        // completes, possibly long after the predecessor's set_error has returned
+        Expected e = leaf_exp(0);
+        if (e.channel == CH_ERROR)
+        {
+            int id = e.err_ids[0];
+            e = leaf_exp(1);
+            if (e.channel == CH_VALUE) e.value += id;
+        }
+        add_consumer(L{&g_leaf[0]} | ex::let_error([](std::exception_ptr& ep) {
+            return L{&g_leaf[1]} | ex::then([&ep](Tok t) { return Tok(t.get() + err_id_of(ep)); });
+        }),
+            e, g_how, thr(r), (int) r.below(3), "let_error(keeps reference)");
+    }
+    void shape_let_value_keeps_ref(Rng& r)
+    {
+        Expected e = leaf_exp(0);
+        if (e.channel == CH_VALUE)
+        {
+            int64_t v = e.value;
+            e = leaf_exp(1);
+            if (e.channel == CH_VALUE) e.value += v;
+        }
+        add_consumer(L{&g_leaf[0]} | ex::let_value([](Tok& t) {
+            return L{&g_leaf[1]} | ex::then([&t](Tok x) { return Tok(x.get() + t.get()); });
+        }),
+            e, g_how, thr(r), (int) r.below(3), "let_value(keeps reference)");
+    }
+
     // shapes that need schedulers (runtime)
     void shape_schedule(Rng& r)
     {
@@ -803,10 +834,10 @@ namespace {
         shape_when_all_vector, shape_split, shape_ensure_started, shape_drop_value, shape_split_tuple, shape_drop_op_state,
         shape_unique_any, shape_any, shape_unpack, shape_split_when_all, shape_require_started, shape_let_error_leaf,
         shape_let_value_throws, shape_ensure_started_split, shape_split_ensure_started, shape_when_all_nested,
-        shape_drop_op_state_when_all};
+        shape_drop_op_state_when_all, shape_let_error_keeps_ref, shape_let_value_keeps_ref};
     shape_fn const sched_shapes[] = {shape_schedule, shape_continues_on, shape_transfer_just, shape_when_all_sched,
         shape_split_sched, shape_split, shape_ensure_started, shape_when_all2, shape_ensure_started_split, shape_when_all_nested,
-        shape_drop_op_state_when_all};
+        shape_drop_op_state_when_all, shape_let_error_keeps_ref, shape_let_value_keeps_ref};
     constexpr int NPURE = sizeof(pure_shapes) / sizeof(pure_shapes[0]);
     constexpr int NSCHED = sizeof(sched_shapes) / sizeof(sched_shapes[0]);
 
